@@ -1,0 +1,60 @@
+//! Verification hooks (only compiled with `--cfg libp2p_verif`): public wrappers that call the
+//! private `Message::{encode, decode}` and the crate-private `Protocol` constructors.
+//! Add-only; with the cfg off the crate is unchanged.
+
+use bytes::{Bytes, BytesMut};
+
+use super::{HeaderLine, Message, Protocol, ProtocolError};
+
+/// Plain mirror of the crate-private [`Message`].
+#[derive(Debug, Clone, PartialEq, Eq)]
+pub enum VMsg {
+    Header,
+    Protocol(String),
+    ListProtocols,
+    Protocols(Vec<String>),
+    NotAvailable,
+}
+
+fn to_message(m: &VMsg) -> Message {
+    match m {
+        VMsg::Header => Message::Header(HeaderLine::V1),
+        // raw constructor: no validation, exactly what `Message::encode` is handed internally
+        VMsg::Protocol(p) => Message::Protocol(Protocol(p.clone())),
+        VMsg::ListProtocols => Message::ListProtocols,
+        VMsg::Protocols(ps) => Message::Protocols(ps.iter().map(|p| Protocol(p.clone())).collect()),
+        VMsg::NotAvailable => Message::NotAvailable,
+    }
+}
+
+fn from_message(m: Message) -> VMsg {
+    match m {
+        Message::Header(HeaderLine::V1) => VMsg::Header,
+        Message::Protocol(p) => VMsg::Protocol(p.0),
+        Message::ListProtocols => VMsg::ListProtocols,
+        Message::Protocols(ps) => VMsg::Protocols(ps.into_iter().map(|p| p.0).collect()),
+        Message::NotAvailable => VMsg::NotAvailable,
+    }
+}
+
+/// `Message::encode`
+pub fn encode(m: &VMsg) -> Vec<u8> {
+    let mut buf = BytesMut::new();
+    to_message(m).encode(&mut buf);
+    buf.to_vec()
+}
+
+/// `Message::decode`
+pub fn decode(bytes: &[u8]) -> Result<VMsg, ProtocolError> {
+    Message::decode(Bytes::copy_from_slice(bytes)).map(from_message)
+}
+
+/// `Protocol::try_from(&str)` (the validation the dialer/listener apply to caller-supplied names)
+pub fn protocol_try_from_str(s: &str) -> Result<String, ProtocolError> {
+    Protocol::try_from(s).map(|p| p.0)
+}
+
+/// `Protocol::try_from(Bytes)` (the validation applied to names read off the wire)
+pub fn protocol_try_from_bytes(b: &[u8]) -> Result<String, ProtocolError> {
+    Protocol::try_from(Bytes::copy_from_slice(b)).map(|p| p.0)
+}
